@@ -97,12 +97,12 @@ fn first_diff(a: &Transaction, b: &Transaction) -> String {
 }
 
 /// an extractable PSET (every output has amount and asset)
-fn extractable_pset(r: &mut Rg, p: P) -> Pset {
+pub fn extractable_pset(r: &mut Rg, p: P) -> Pset {
     gp::pset(r, p, 3, 3)
 }
 
-#[derive(Clone, Debug)]
-enum Update {
+#[derive(Clone, Debug, PartialEq, Eq, Hash)]
+pub enum Update {
     Sequence,
     PartialSig,
     TapKeySig,
@@ -123,7 +123,14 @@ enum Update {
     Preimage,
 }
 
-fn apply_update(r: &mut Rg, p: &mut Pset, u: &Update) -> bool {
+pub fn apply_update(r: &mut Rg, p: &mut Pset, u: &Update) -> bool {
+    let (ni, no) = (p.n_inputs(), p.n_outputs());
+    let ii = if ni > 0 { r.gen_range(0..ni) } else { 0 };
+    let oi = if no > 0 { r.gen_range(0..no) } else { 0 };
+    apply_update_at(r, p, u, ii, oi)
+}
+
+pub fn apply_update_at(r: &mut Rg, p: &mut Pset, u: &Update, ii: usize, oi: usize) -> bool {
     let ni = p.n_inputs();
     let no = p.n_outputs();
     match u {
@@ -139,8 +146,6 @@ fn apply_update(r: &mut Rg, p: &mut Pset, u: &Update) -> bool {
             }
         }
     }
-    let ii = if ni > 0 { r.gen_range(0..ni) } else { 0 };
-    let oi = if no > 0 { r.gen_range(0..no) } else { 0 };
     match u {
         Update::Sequence => p.inputs_mut()[ii].sequence = Some(elements::Sequence(r.gen())),
         Update::PartialSig => {
@@ -219,7 +224,7 @@ fn apply_update(r: &mut Rg, p: &mut Pset, u: &Update) -> bool {
     true
 }
 
-const UPDATES: [Update; 18] = [
+pub const UPDATES: [Update; 18] = [
     Update::Sequence,
     Update::PartialSig,
     Update::TapKeySig,
